@@ -255,7 +255,8 @@ def run(ctx):
     # ---- (b) binary
     sess_docs = [d for d in docs if len(d[1]) < 3000]
     nsess = 400 if ctx.thorough() else 48
-    picks = [sess_docs[i] for i in range(min(20, len(sess_docs)))] + rng.sample(sess_docs, nsess)
+    # every deep / hand-written document (nesting 30, 120 and 400 of every recursive construct), then a random sample
+    picks = [d for d in sess_docs if d[0] == "deep"] + rng.sample(sess_docs, nsess)
     cdir = os.path.join(common.VERIF, "corpus", "C02")
     for f in sorted(os.listdir(cdir)) if os.path.isdir(cdir) else []:
         picks.insert(0, ("corpus:" + f, json.load(open(os.path.join(cdir, f)))["text"]))
